@@ -264,7 +264,10 @@ func (conR *ConsensusManager) Receive(chID byte, src p2p.Peer, msgBytes []byte) 
 	// Get peer states
 	ps, ok := src.Get(types.PeerStateKey).(*PeerState)
 	if !ok {
-		panic(fmt.Sprintf("Peer %v has no state", src))
+		// The peer has been removed (RemovePeer replaced its state): the connection may still hand over
+		// messages that were in its read buffer when the peer was stopped.
+		conR.Logger.Debug("Message from a peer without state (removed)", "peer", src, "chId", chID)
+		return
 	}
 
 	switch chID {
